@@ -182,6 +182,9 @@ def run(c: sym.Ctx, spec: Dict[str, Any], on_step: Any = None) -> Run:
     recv.callback = cb  # type: ignore[method-assign]
     finish = asyncio.Event()
     lab.receiver = recv  # type: ignore[attr-defined]
+    # the semaphores are identified by what they were built from (the limit objects), not by attribute name
+    lab.exec_sem = _find_sem(recv, A, "sem")  # type: ignore[attr-defined]
+    lab.prefetch_sem = _find_sem(recv, P, "sem_prefetch")  # type: ignore[attr-defined]
 
     def stop() -> None:
         r.stop_at = len(lab.ev)
@@ -271,15 +274,26 @@ def run(c: sym.Ctx, spec: Dict[str, Any], on_step: Any = None) -> Run:
         r.info["t_end"] = lab.loop.time()
         if main.done() and not main.cancelled() and main.exception() is not None:
             r.info["listen_exception"] = repr(main.exception())
-        sem = getattr(recv, "sem", None)
+        sem = lab.exec_sem  # type: ignore[attr-defined]
         r.info["sem_waiters"] = len(getattr(sem, "_waiters", None) or ()) if sem is not None else 0
         r.info["sem_value"] = getattr(sem, "_value", None) if sem is not None else None
-        r.info["prefetch_value"] = getattr(getattr(recv, "sem_prefetch", None), "_value", None)
+        r.info["prefetch_value"] = getattr(lab.prefetch_sem, "_value", None)  # type: ignore[attr-defined]
     finally:
         lab.close()
         _AB.global_task_registry.clear()
         _AB.global_task_registry.update(saved_registry)
     return r
+
+
+def _find_sem(recv: Any, limit: Any, usual_name: str) -> Any:
+    """The asyncio.Semaphore of `recv` that was created with `limit` (None when the receiver has none)."""
+    if limit is None:
+        return None
+    found = [v for v in vars(recv).values() if isinstance(v, asyncio.Semaphore) and getattr(v, "_value", None) is limit]
+    if len(found) == 1:
+        return found[0]
+    cand = getattr(recv, usual_name, None)
+    return cand if isinstance(cand, asyncio.Semaphore) else None
 
 
 def _apply(lab: Lab, pick: str) -> None:
